@@ -28,7 +28,7 @@ FORWARD = re.compile(
     r'|cmp::max$|cmp::min$|cmp::Ord::max$|cmp::Ord::min$|cmp::Ord::cmp$|cmp::PartialOrd::partial_cmp$'
     r'|cmp::PartialEq::eq$|cmp::PartialEq::ne$|cmp::PartialOrd::lt$|cmp::PartialOrd::le$|cmp::PartialOrd::gt$|cmp::PartialOrd::ge$'
     r'|Option::is_some$|Option::is_none$|ops::Try::branch$|ops::FromResidual::from_residual$'
-    r'|core::num::abs$|core::num::unsigned_abs$|core::num::pow$|Ordering::reverse$')
+    r'|(?:core|std)::num::abs$|(?:core|std)::num::unsigned_abs$|(?:core|std)::num::pow$|Ordering::reverse$')
 # higher-order forwarding: result derives from the receiver, the closure's captures and its body
 HIGHER = re.compile(r'Option::map$|Option::and_then$|Option::map_or$|Option::map_or_else$|Option::unwrap_or_else$|Option::or_else$|Option::filter$|Option::zip$|Result::map$|Result::and_then$|Result::map_err$|Result::ok$|Option::ok_or$|Option::ok_or_else$')
 
